@@ -366,3 +366,27 @@ Proof.
     replace (isort (hle ex_heap true) ex_l) with [8; 4; 6; 2]%positive in Hco by (vm_compute; reflexivity).
     exact Hco.
 Qed.
+
+(** [sort_list] for members with string keys, in terms of the specification *)
+Theorem sort_list_correct h cs fuel l m :
+  (length l + 2 <= fuel)%nat -> chain m l -> NoDup l -> (forall x, x ∈ l -> node_ok h x) ->
+  exists m', sort_list fuel (head l) cs (with_lnk h m) = Ret (head (isort (hle h cs) l), with_lnk h m') /\
+             chain m' (isort (hle h cs) l) /\
+             (forall z, z ∉ l -> m' !! z = m !! z).
+Proof.
+  intros Hf Hc Hnd Hok.
+  destruct (sort_list_spec h cs (node_ok h) (kcmp h cs) (node_ok_live h)
+              (fun m x Hx => get_key_with h m x Hx) (fun m x y Hx Hy => compare_strings_with h m cs x y Hx Hy)
+              fuel l m Hf Hc Hnd Hok) as (m' & Hrun & Hc' & Hfr).
+  rewrite msort_kcmp in Hrun, Hc' by lia. exists m'. split; [exact Hrun|]. split; [exact Hc'|exact Hfr].
+Qed.
+
+(** * Why the keys must be strings: with a NULL key the comparison is no order
+      ([compare_strings] answers 1 both ways), and sorting {NULL:0, "a":1} swaps the two members on
+      every call — safe and healthy (previous theorem), but neither sorted nor idempotent *)
+Definition ex_null_obj : node := Node 64 None 0 dzero None [Node 8 None 0 dzero None []; ex_mem [97] 1].
+Lemma ex_null_key_alternates :
+  exists r, run_sort_case true ex_null_obj = Ret r /\
+            sr_before r = [2; 3]%positive /\ sr_after r = [3; 2]%positive /\ sr_after2 r = [2; 3]%positive /\
+            sr_healthy r = true /\ sr_healthy2 r = true.
+Proof. vm_compute. eexists. split; [reflexivity|]. repeat split. Qed.
